@@ -1,6 +1,6 @@
 // kcases.go: the (K) part — cases for the Coq model (Corr/C13Run.v).  Every case carries bytes
 // produced by the implementation (block bytes from the blockWriter hook, table files from
-// table.Writer with NoCompression) and the results the implementation returned for calls on them;
+// table.Writer with NoCompression or SnappyCompression) and the results the implementation returned for calls on them;
 // the model must produce the same block bytes / parse the same file and return the same results.
 package main
 
@@ -10,6 +10,7 @@ import (
 	"path/filepath"
 	"strings"
 
+	"github.com/golang/snappy"
 	"github.com/syndtr/goleveldb/leveldb/errors"
 	"github.com/syndtr/goleveldb/leveldb/iterator"
 	"github.com/syndtr/goleveldb/leveldb/opt"
@@ -228,7 +229,9 @@ func kTableCase(r *vlib.RNG, b kBudget, damaged bool, res *vlib.Result) (cs []st
 	var file []byte
 	for try := 0; ; try++ {
 		cfg = GenCfg(r)
-		cfg.Snappy = false
+		// a third of the tables is written with SnappyCompression: the model reads them with its model of
+		// golang/snappy's decoder (Codec/Snappy.v)
+		cfg.Snappy = r.Chance(1, 3)
 		if cfg.BlockSize > 1024 {
 			cfg.BlockSize = 1024
 		}
@@ -356,9 +359,140 @@ func kTableCase(r *vlib.RNG, b kBudget, damaged bool, res *vlib.Result) (cs []st
 	}
 	res.Count(fmt.Sprintf("k_table_blocks_%s", blocksBucket(len(starts))), 1)
 	cs = append(cs, fmt.Sprintf("KTable %d %s %s %s\n  [%s]", cfg.Cmp, fname, vlib.CoqBool(verify), vlib.CoqHex(data), strings.Join(qs, ";\n   ")))
-	if !damaged && cfg.FilterBits == 0 {
+	if cfg.Snappy {
+		res.Count("k_tables_snappy", 1)
+	}
+	if !damaged && cfg.FilterBits == 0 && !cfg.Snappy {
 		cs = append(cs, fmt.Sprintf("KWrite %d %d %d %s %s", cfg.Cmp, cfg.BlockSize, cfg.RestartInterval, coqHPairs(kvs), vlib.CoqHex(file)))
 		res.Count("k_writer_cases", 1)
+	}
+	return cs
+}
+
+// kDirectedEmpty: the table written for NO pairs under range iterators with an empty, non-nil Start
+// key (and the other bound shapes).  Props/C13.v states what the model does there
+// (C13_range_iter_empty_table_reports_corruption: a Seek reports "entries offset not aligned" on an
+// undamaged table, no pair is ever returned: C13_table_iter_range_refines_cursor); these cases make the
+// implementation's observations and Error() part of the correspondence on every run.
+func kDirectedEmpty(res *vlib.Result) (cs []string) {
+	defer func() {
+		if p := recover(); p != nil {
+			res.Violate(fmt.Sprintf("panic while producing the directed empty-table (K) cases: %v", p), map[string]interface{}{"directed": "empty"})
+			cs = nil
+		}
+	}()
+	for cid := 0; cid < vlib.NumComparers; cid++ {
+		cfg := TableCfg{Cmp: cid, BlockSize: 4096, RestartInterval: 16}
+		file, err := BuildTable(cfg, nil)
+		if err != nil {
+			res.Violate("BuildTable (no pairs) failed: "+err.Error(), map[string]interface{}{"cfg": cfg})
+			return nil
+		}
+		o, err := OpenTable(cfg, file, opt.StrictBlockChecksum)
+		if err != nil {
+			res.Violate("OpenTable (no pairs) failed: "+err.Error(), map[string]interface{}{"cfg": cfg})
+			return nil
+		}
+		e, a := []byte{}, []byte("a")
+		sk := func(k []byte) Op { return Op{Kind: OpSeek, Key: k} }
+		all := []Op{{Kind: OpFirst}, {Kind: OpNext}, sk(e), {Kind: OpLast}, {Kind: OpPrev}, sk(a), {Kind: OpNext}}
+		type walk struct {
+			rs  *RangeSpec
+			ops []Op
+		}
+		walks := []walk{
+			{&RangeSpec{HasStart: true, Start: e}, []Op{sk(e)}},
+			{&RangeSpec{HasStart: true, Start: e}, all},
+			{&RangeSpec{HasStart: true, Start: e}, []Op{{Kind: OpLast}, sk(e), {Kind: OpFirst}}},
+			{&RangeSpec{HasStart: true, Start: e, HasLimit: true, Limit: a}, []Op{sk(e)}},
+			{&RangeSpec{HasStart: true, Start: e, HasLimit: true, Limit: e}, []Op{sk(e), {Kind: OpFirst}}},
+			{&RangeSpec{HasStart: true, Start: a}, all},
+			{&RangeSpec{HasLimit: true, Limit: e}, all},
+			{&RangeSpec{HasLimit: true, Limit: a}, all},
+			{nil, all},
+		}
+		var qs []string
+		qs = append(qs, "QAll []", fmt.Sprintf("QCheck %d []", cfg.RestartInterval))
+		for _, w := range walks {
+			for _, strict := range []bool{true, false} {
+				ro := &opt.ReadOptions{}
+				if strict {
+					ro.Strict = opt.StrictReader
+				}
+				it := o.R.NewIterator(w.rs.slice(), ro)
+				obs, errNil := driveObs(it, w.ops)
+				it.Release()
+				qs = append(qs, fmt.Sprintf("QWalk %s %s %s %s %s", coqSlice(w.rs), vlib.CoqBool(strict), coqOps(w.ops), obs, vlib.CoqBool(errNil)))
+				res.Count("k_directed_empty_table_walks", 1)
+				if !errNil {
+					res.Count("k_directed_empty_table_walks_reporting_corruption", 1)
+				}
+			}
+		}
+		o.Close()
+		cs = append(cs, fmt.Sprintf("KTable %d None true %s\n  [%s]", cid, vlib.CoqHex(file), strings.Join(qs, ";\n   ")))
+	}
+	return cs
+}
+
+// kSnappyCases: the codec contract of the writer theorems (decompress (compress x) = Some x) on instances: what
+// snappy.Encode produced for block contents must decode, in the model, to the input; altered compressed blocks must
+// decode to whatever snappy.Decode returned, or fail when it failed.
+func kSnappyCases(r *vlib.RNG, n int, res *vlib.Result) (cs []string) {
+	defer func() {
+		if p := recover(); p != nil {
+			res.Violate(fmt.Sprintf("panic while producing a (K) snappy case: %v", p), map[string]interface{}{"directed": "snappy"})
+			cs = nil
+		}
+	}()
+	for i := 0; i < n; i++ {
+		var raw []byte
+		switch r.Pick(5, 2, 2, 1) {
+		case 0: // a data block as the writer compresses it
+			cid := r.Intn(vlib.NumComparers)
+			kvs := GenKVs(r, cid, []int{ShapeLongPrefix, ShapeRandom, ShapeDense, ShapePrefixChain, ShapeEmptyValues, ShapeEmpty}[r.Intn(6)])
+			if len(kvs) > 30 {
+				kvs = kvs[:r.Range(4, 30)]
+			}
+			keys, vals := make([][]byte, len(kvs)), make([][]byte, len(kvs))
+			for j, kv := range kvs {
+				keys[j], vals[j] = kv.K, kv.V
+			}
+			b, err := table.VerifBlockBuild(r.Range(1, 16), keys, vals)
+			if err != nil {
+				continue
+			}
+			raw = b
+		case 1: // long runs and repetitions: copies with overlap, 2-byte offsets
+			unit := r.Bytes(r.Range(1, 9), nil)
+			for len(raw) < r.Range(70, 1500) {
+				raw = append(raw, unit...)
+				if r.Chance(1, 8) {
+					raw = append(raw, r.Bytes(r.Range(1, 5), nil)...)
+				}
+			}
+		case 2: // incompressible: long literals (length in 1 or 2 extra bytes)
+			raw = r.Bytes([]int{0, 1, 59, 60, 61, 255, 256, 257, 700}[r.Intn(9)], nil)
+		default:
+			raw = r.Bytes(r.Range(0, 300), []byte("ab"))
+		}
+		comp := snappy.Encode(nil, raw)
+		cs = append(cs, fmt.Sprintf("KSnappy %s %s", vlib.CoqHex(comp), vlib.CoqHex(raw)))
+		res.Count("k_snappy_roundtrip", 1)
+		if i%3 == 0 && len(comp) > 0 {
+			bad := append([]byte{}, comp...)
+			bad[r.Intn(len(bad))] ^= []byte{0x01, 0x02, 0x40, 0x80, 0xff}[r.Intn(5)]
+			if r.Chance(1, 4) {
+				bad = bad[:r.Intn(len(bad))]
+			}
+			if d, err := snappy.Decode(nil, bad); err != nil {
+				cs = append(cs, "KSnappyErr "+vlib.CoqHex(bad))
+				res.Count("k_snappy_altered_rejected", 1)
+			} else if len(d) <= 4000 {
+				cs = append(cs, fmt.Sprintf("KSnappy %s %s", vlib.CoqHex(bad), vlib.CoqHex(d)))
+				res.Count("k_snappy_altered_accepted", 1)
+			}
+		}
 	}
 	return cs
 }
@@ -407,6 +541,8 @@ func emitK(a vlib.Args, res *vlib.Result, r *vlib.RNG) {
 		tcs = append(tcs, kTableCase(rt.Fork(), b, i < b.damaged, res)...)
 	}
 	bcs = kBlockCases(rb, b.blocks, res)
+	tcs = append(tcs, kDirectedEmpty(res)...)
+	bcs = append(bcs, kSnappyCases(r.Fork(), b.blocks/2, res)...)
 	// interleave so that round-robin sharding spreads the heavy table cases
 	var cases []string
 	for len(tcs) > 0 || len(bcs) > 0 {
